@@ -10,7 +10,7 @@ from common import Driver, DriverFailure, REPO, hx
 
 LEVEL = "proof"
 MANIFEST = dict(
-    text="Lean 4 theorems over the command model (on C02's accessor model and C05's echo application) for every well-formed item, every 1024-byte block (= every "
+    text="Lean 4 theorems over the command model (on C02's accessor model and C05's echo application) for every well-formed item, every 1024-byte block (= every  Session 4: a LONG session on one connection (140 pack commands, more than two cycles of the command sequence numbers): each still one well-formed in-range command, applied and read back."
          "current state) and every argument: an on/off command emits at most one command and none exactly when already in the requested state (one_or_none); key-press "
          "devices press once and - the spa toggling being the property's stated assumption - reach the requested state after which the command is a no-op; direct-write "
          "switches (economy mode), pump modes, temperature unit and watercare emit exactly one set-value / SETWC that the spa can store and that reads back as requested "
